@@ -62,6 +62,7 @@ def ugrid_dataset(m, rng, force=None):
         "edge_table": bool(rng.random() < 0.3),
         "face_coords": bool(rng.random() < 0.3),
         "conn_via": _pick(rng, ["topology_attr", "cf_role"]),
+        "coord_dtype": _pick(rng, ["float64", "float64", "float32"]),
     }
     if rng.random() < 0.15:
         # storage already in the library's standard form (platform int, most negative fill)
@@ -89,7 +90,16 @@ def ugrid_dataset(m, rng, force=None):
         conn[i, : len(f)] = np.array(f) + si
     rn = d["names"] == "random"
     N = {k: (_name(rng, k) if rn else k) for k in ["mesh", "node_x", "node_y", "face_nodes", "edge_nodes", "face_x", "face_y", "nNode", "nFace", "nMax", "nEdge", "Two"]}
+    if d["coord_dtype"] == "float32":
+        # single-precision node coordinates (what most model output carries): the mesh described is the one those values denote
+        from . import ux as _ux
+
+        m = _ux.mesh_f32(m)
     lon, lat = m.lonlat()
+    if d["coord_dtype"] == "float32":
+        lon, lat = np.asarray(lon, dtype=np.float32), np.asarray(lat, dtype=np.float32)
+        if d["lon"] == "0..360":
+            d["lon"] = "-180..180"  # (wrapping a float32 longitude into 0..360 would round again)
     ds = xr.Dataset()
     topo = {"cf_role": "mesh_topology", "topology_dimension": 2, "node_coordinates": "%s %s" % (N["node_x"], N["node_y"])}
     if d["conn_via"] == "topology_attr":
